@@ -452,7 +452,129 @@ def rule_R6bp(text, log):
         text = text[:rs] + after + text[mm.end():]
 
 
-RULES = {'R5': rule_R5, 'R15': rule_R15, 'R6bp': rule_R6bp,
+def _for_loops(text):
+    """Yield (start, pat, expr, brace_open, brace_close) for each `for PAT in EXPR {` in text."""
+    m = mask(text)
+    res = []
+    for cand in re.finditer(r'\bfor\s+', m):
+        j = cand.end()
+        k = m.find(' in ', j)
+        if k < 0:
+            continue
+        e = k + 4
+        b = e
+        while b < len(m) and m[b] != '{':
+            if m[b] in '([':
+                b = match_close(m, b)
+            b += 1
+        if b >= len(m):
+            continue
+        res.append((cand.start(), text[j:k].strip(), text[e:b].strip(), b, match_close(m, b)))
+    return res
+
+
+def rule_R4b(text, log):
+    """for P in &V { B }  ==>  { let mut i__ = 0; while i__ < V.len() { let P = &V[i__]; B i__ += 1; } }  (shared iteration over a Vec)"""
+    n = 0
+    while True:
+        hit = None
+        for (s0, pat, expr, bo, bc) in _for_loops(text):
+            if expr.startswith('&') and not expr.startswith('&mut') and re.fullmatch(r'&\s*[A-Za-z0-9_\.]+', expr) and re.fullmatch(IDENT, pat):
+                hit = (s0, pat, expr, bo, bc)
+                break
+        if not hit:
+            return text
+        s0, pat, expr, bo, bc = hit
+        v = expr[1:].strip()
+        i = 'ib__%d' % n
+        n += 1
+        body = text[bo + 1:bc]
+        after = '{ let mut %s: usize = 0; while %s < %s.len() { let %s = &%s[%s];%s %s += 1; } }' % (i, i, v, pat, v, i, body, i)
+        log.append(dict(rule='R4b', before='for %s in %s { ... }' % (pat, expr), after='{ let mut %s: usize = 0; while %s < %s.len() { let %s = &%s[%s]; ... %s += 1; } }' % (i, i, v, pat, v, i, i)))
+        text = text[:s0] + after + text[bc + 1:]
+
+
+def rule_R4c(text, log):
+    """for I in (A)..(B) { S }  ==>  { let mut I = A; let end__ = B; while I < end__ { S I += 1; } }   (half-open usize range)"""
+    n = 0
+    while True:
+        hit = None
+        for (s0, pat, expr, bo, bc) in _for_loops(text):
+            if '..' in expr and '..=' not in expr and re.fullmatch(IDENT, pat):
+                hit = (s0, pat, expr, bo, bc)
+                break
+        if not hit:
+            return text
+        s0, pat, expr, bo, bc = hit
+        em = mask(expr)
+        k = em.index('..')
+        a, b = expr[:k].strip(), expr[k + 2:].strip()
+        end = 'end__%d' % n
+        n += 1
+        body = text[bo + 1:bc]
+        after = '{ let mut %s = %s; let %s = %s; while %s < %s {%s %s += 1; } }' % (pat, a, end, b, pat, end, body, pat)
+        log.append(dict(rule='R4c', before='for %s in %s { ... }' % (pat, expr), after='{ let mut %s = %s; let %s = %s; while %s < %s { ... %s += 1; } }' % (pat, a, end, b, pat, end, pat)))
+        text = text[:s0] + after + text[bc + 1:]
+
+
+def rule_R4d(text, log):
+    """for PAT in V { B }  (V: Vec of Copy elements, consumed)  ==>  { let v__ = V; let mut i__ = 0; while i__ < v__.len() { let PAT = v__[i__]; B i__ += 1; } }"""
+    n = 0
+    while True:
+        hit = None
+        for (s0, pat, expr, bo, bc) in _for_loops(text):
+            if re.fullmatch(r'[A-Za-z0-9_\.]+', expr) and '..' not in expr:
+                hit = (s0, pat, expr, bo, bc)
+                break
+        if not hit:
+            return text
+        s0, pat, expr, bo, bc = hit
+        i, v = 'id__%d' % n, 'vd__%d' % n
+        n += 1
+        body = text[bo + 1:bc]
+        after = '{ let %s = %s; let mut %s: usize = 0; while %s < %s.len() { let %s = %s[%s];%s %s += 1; } }' % (v, expr, i, i, v, pat, v, i, body, i)
+        log.append(dict(rule='R4d', before='for %s in %s { ... }' % (pat, expr), after='{ let %s = %s; let mut %s: usize = 0; while %s < %s.len() { let %s = %s[%s]; ... %s += 1; } }' % (v, expr, i, i, v, pat, v, i, i)))
+        text = text[:s0] + after + text[bc + 1:]
+
+
+def rule_R9c(text, log):
+    """X.iter().map(|p| E).sum::<usize>()  ==>  { let mut sum__: usize = 0; let mut is__ = 0; while is__ < X.len() { let p = &X[is__]; sum__ += E; is__ += 1; } sum__ }"""
+    while True:
+        m = mask(text)
+        mm = re.search(r'\.\s*sum\s*::\s*<\s*usize\s*>\s*\(\s*\)', m)
+        if not mm:
+            return text
+        # the receiver is `X.iter().map(|p| E)`
+        calls = [c for c in find_closure_calls(text[:mm.start()], 'map')]
+        if not calls:
+            return text
+        c = calls[-1]
+        if text[c['close'] + 1:mm.start()].strip() != '':
+            return text
+        recv = text[c['recv_start']:c['dot']].rstrip()
+        mi = re.fullmatch(r'(.*?)\s*\.\s*iter\s*\(\s*\)', recv, re.S)
+        if not mi:
+            return text
+        x = re.sub(r'\s+', '', mi.group(1))
+        after = '{ let mut sum__: usize = 0; let mut is__: usize = 0; while is__ < %s.len() { let %s = &%s[is__]; sum__ += %s; is__ += 1; } sum__ }' % (x, c['params'], x, c['body'])
+        log.append(dict(rule='R9c', before=text[c['recv_start']:mm.end()][:200], after=after[:200]))
+        text = text[:c['recv_start']] + after + text[mm.end():]
+
+
+def rule_R16(text, log):
+    """`&x` inside a loop pattern (ref pattern)  ==>  bind `x__r` and start the body with `let x = *x__r;`  (applied to R5 output)"""
+    while True:
+        m = mask(text)
+        mm = re.search(r'Some\(\(([^()]*?)&\s*(' + IDENT + r')([^()]*?)\)\)\s*=>\s*\{', m)
+        if not mm:
+            return text
+        x = mm.group(2)
+        new = 'Some((%s%s__r%s)) => { let %s = *%s__r;' % (mm.group(1), x, mm.group(3), x, x)
+        log.append(dict(rule='R16', before=text[mm.start():mm.end()], after=new))
+        text = text[:mm.start()] + new + text[mm.end():]
+
+
+RULES = {'R4b': rule_R4b, 'R4c': rule_R4c, 'R4d': rule_R4d, 'R9c': rule_R9c, 'R16': rule_R16, 'R5': rule_R5, 'R15': rule_R15, 'R6bp': rule_R6bp,
     'R1': rule_R1, 'R2': rule_R2, 'R3': rule_R3, 'R3b': rule_R3b, 'R4': rule_R4,
     'R6': rule_R6, 'R6b': rule_R6b, 'R6c': rule_R6c,
 }
